@@ -161,11 +161,109 @@ def C07(tier, rng):
         cs.append(Case('dec.dns %s' % hx(hop_chain_msg(k)), 'label-hops%d' % k))
     cs.append(Case('dec.dns %s' % hx(b'\0\0\0\0\0\1' + b'\0' * 6 + b'\1a\xc0\x0c\0\1\0\1'), 'label-cycle'))
     cs.append(Case('dec.name %s' % hx(b'\1a\xc0\x00'), 'label-cycle'))
+    cs += far_pointer_cases()
+    cs += hidden_pointer_cases(tier)
     # self references and 2-cycles at every small offset
     for off in range(0, 64):
         b = bytearray(b'\0' * off) + ptr(off)
         cs.append(Case('dec.dns %s' % hx(b'\0\0\0\0\0\1' + b'\0' * 6 + bytes(b)), 'self'))
     return cs
+
+def far_pointer_cases():
+    """chains of 1..3 pointers whose LAST target is any of the highest offsets a pointer can express (0x3F00..0x3FFF) or
+    lies just beyond short buffers; alone and as a question name"""
+    cs = []
+    for t in list(range(0x3F00, 0x4000)) + [0x2000, 0x1FFF, 0x0FFF, 0x0800, 0x07FF, 0x0100, 0xFF]:
+        last = (0xC000 | t).to_bytes(2, 'big')
+        for hops in (1, 2, 3):
+            b = b''.join((0xC000 | (2 * (i + 1))).to_bytes(2, 'big') for i in range(hops - 1)) + last
+            cs.append(Case('dec.name %s' % hx(b), 'far-pointer'))
+            if t >= 0x3FF0 or hops == 2:
+                shifted = b''.join((0xC000 | (12 + 2 * (i + 1))).to_bytes(2, 'big') for i in range(hops - 1)) + last
+                cs.append(Case('dec.dns %s' % hx(b'\0\0\0\0\0\1' + b'\0' * 6 + shifted + b'\0\1\0\1'), 'far-pointer'))
+    # legal messages longer than 16 KiB whose names sit at 0x3FF0..0x3FFF and are reached through two backward pointers
+    for t in range(0x3FF0, 0x4000):
+        fill = t - (12 + 11)
+        null = b'\0' + b'\0\x0a\0\1\0\0\0\0' + fill.to_bytes(2, 'big') + b'\0' * (fill - 3) + b'\1z\0'
+        tgt = t - 3
+        a1 = (0xC000 | tgt).to_bytes(2, 'big') + b'\0\2\0\1\0\0\0\0\0\2' + (0xC000 | tgt).to_bytes(2, 'big')
+        p1 = 12 + len(null)
+        if tgt <= 0x3FFF and p1 <= 0x3FFF:
+            a2 = (0xC000 | p1).to_bytes(2, 'big') + b'\0\2\0\1\0\0\0\0\0\2' + (0xC000 | p1).to_bytes(2, 'big')
+        else:
+            a2 = a1
+        cs.append(Case('dec.dns %s' % hx(b'\0\0\x84\0\0\0\0\3\0\0\0\0' + null + a1 + a2), 'far-pointer-legal'))
+    return cs
+
+def hidden_pointer_cases(tier):
+    """pointer chains and cycles stored in octets that are never decoded as a name themselves (opaque RDATA of an earlier
+    NULL record); a later owner / RDATA / question name points into them. Whether a name's pointers count must not
+    depend on where the name starts."""
+    cs = []
+    def msg(structure, entry_rel, where):
+        # NULL record (root owner) whose RDATA is `structure`; its first RDATA octet is at offset 12 + 11
+        base = 12 + 11
+        null = b'\0' + b'\0\x0a\0\1\0\0\0\0' + len(structure).to_bytes(2, 'big') + structure
+        p = (0xC000 | (base + entry_rel)).to_bytes(2, 'big')
+        if where == 'owner':
+            rec = p + b'\0\1\0\1\0\0\0\0\0\4\1\2\3\4'
+        elif where == 'rdata':
+            rec = b'\1o\0' + b'\0\2\0\1\0\0\0\0\0\2' + p
+        else:
+            rec = b'\1o\0' + b'\0\x0f\0\1\0\0\0\0\0\6\0\1\1m' + p
+        return b'\0\0\x84\0\0\0\0\2\0\0\0\0' + null + rec
+    base = 12 + 11
+    for k in list(range(1, 45)) + [100, 1000]:
+        # k pointers, each to the next, the last to a root octet (forward chain inside the RDATA)
+        st = b''.join((0xC000 | (base + 2 * (i + 1))).to_bytes(2, 'big') for i in range(k)) + b'\0'
+        for where in ('owner', 'rdata', 'mx'):
+            cs.append(Case('dec.dns %s' % hx(msg(st, 0, where)), 'hidden-chain'))
+        # backward chain: entry at the end
+        st2 = b'\0' + b''.join((0xC000 | (base + (2 * i - 1 if i else 0))).to_bytes(2, 'big') for i in range(k))
+        cs.append(Case('dec.dns %s' % hx(msg(st2, len(st2) - 2, 'owner')), 'hidden-chain-back'))
+    for cyc in (1, 2, 3, 5, 17, 40):
+        st = b''.join((0xC000 | (base + 2 * ((i + 1) % cyc))).to_bytes(2, 'big') for i in range(cyc))
+        for where in ('owner', 'rdata', 'mx'):
+            cs.append(Case('dec.dns %s' % hx(msg(st, 0, where)), 'hidden-cycle'))
+        # a label before re-entering the cycle
+        st = b'\1a' + (0xC000 | base).to_bytes(2, 'big')
+        cs.append(Case('dec.dns %s' % hx(msg(st, 0, 'owner')), 'hidden-cycle'))
+    return cs
+
+def cookie_histories(maxk):
+    cs = []
+    ck_calls = ['server:none'] + ['server:%s' % hx(bytes(n)) for n in (0, 7, 8, 9, 31, 32, 33, 300)] + ['client:1122334455667788']
+    for init in ['0102030405060708/none'] + ['0102030405060708/%s' % hx(bytes(n)) for n in (0, 7, 8, 32, 33)]:
+        for k in range(0, maxk + 1):
+            for seq in itertools.product(ck_calls, repeat=k):
+                cs.append(Case('api.cookie %s%s' % (init, ''.join(' ' + c for c in seq)), 'cookie-history'))
+    return cs
+
+def name_limit_api_cases():
+    """names around 255 octets built through every public constructor (text with and without the final dot, appends)"""
+    cs = []
+    for total in range(250, 260):
+        for shape in (long_name(total), tuple([b'x'] * ((total - 1) // 2)) + ((b'yy',) if total % 2 == 0 else ())):
+            n = shape
+            if sum(len(l) + 1 for l in n) + 1 != total: continue
+            s = b'.'.join(n)
+            for suffix in (b'', b'.'):
+                cs.append(Case('text.parse %s' % hx(s + suffix), 'parse-limit'))
+            cs.append(Case('api.name %s' % ' '.join(hx(l) for l in n), 'append-limit'))
+    return cs
+
+_C01_base = C01
+def C01(tier, rng):
+    """C01 of props_a plus the pointer cases defined in this file"""
+    st = _C01_base(tier, rng)
+    extra = far_pointer_cases() + hidden_pointer_cases(tier)
+    if isinstance(st, list): return st + extra
+    def gen():
+        first = True
+        for c in st:
+            yield (c + extra) if first else c
+            first = False
+    return gen()
 
 # ---------------------------------------------------------------- C08
 
@@ -243,6 +341,10 @@ def C08(tier, rng):
         cs.append(enc_case(rand_msg(rng), 'valid'))
     for m in big_msgs(rng, tier):
         cs.append(enc_case(m, 'big'))
+    # "every value constructible through the public API": values reached through setters that refuse, and names built
+    # from text, must still be inside the limits the encoder relies on
+    cs += cookie_histories(2)
+    cs += name_limit_api_cases()
     return cs
 
 # ---------------------------------------------------------------- C10
@@ -450,6 +552,8 @@ def C12(tier, rng):
     for b in range(128):
         for op in ('tag', 'psdn', 'isdn', 'sa'):
             cs.append(Case('api.%s %s' % (op, hx(bytes([b]))), op + '-byte'))
+    # every public way to build a name meets the same limit (text with / without the final dot, appends)
+    cs += name_limit_api_cases()
     return cs
 
 SPECIAL = [b'K', b'k', b'\xe2\x84\xaa', b'\xc4\xb0', b'i\xcc\x87', b'\xe1\xba\x9e', b'ss', b'A', b'a', b'Z', b'z', b'0', b'.', b'\x00', b'\xc3\x89', b'\xc3\xa9', b'[', b'{', b'@', b'`']
